@@ -96,3 +96,31 @@ func Yield(n int) {
 		time.Sleep(time.Duration(n-3) * 20 * time.Microsecond)
 	}
 }
+
+// Bounded runs fn on its own goroutine and waits for it for at most limit.
+// It is used around whole cases whose individual steps are non-blocking
+// library calls: when such a case does not end, a call is stuck inside the
+// library (deadlock or livelock with a mutex held).  stuck holds the stacks
+// of the goroutines that are inside a library frame at that moment; fn's
+// goroutine is abandoned.
+func Bounded(limit time.Duration, fn func()) (finished bool, stuck string) {
+	done := make(chan struct{})
+	go func() { defer close(done); fn() }()
+	select {
+	case <-done:
+		return true, ""
+	case <-time.After(limit):
+	}
+	var b strings.Builder
+	for _, g := range Goroutines() {
+		if strings.Contains(g, "github.com/tychoish/fun") {
+			b.WriteString(g)
+			b.WriteString("\n\n")
+		}
+	}
+	st := b.String()
+	if len(st) > 8000 {
+		st = st[:8000]
+	}
+	return false, st
+}
